@@ -1,5 +1,5 @@
 (* One entry point for the harness: request (list Z) -> reply (list Z). *)
-From JP Require Import Base.Json Extract.Wire Extract.WireAst Model.Slice Spec.Slice Model.Ast Model.Eval Spec.Sem.
+From JP Require Import Base.Json Extract.Wire Extract.WireAst Model.Slice Spec.Slice Model.Ast Model.Eval Spec.Sem Spec.Compare.
 
 Definition iota_json (len : Z) : list json := map (fun k => JNum (NInt (Z.of_nat k))) (seq 0 (Z.to_nat len)).
 Definition enc_sel (r : list (Z * json)) : list Z := enc_list (fun p => fst p :: enc_json (snd p)) r.
@@ -23,11 +23,25 @@ Definition op_sem (r : list Z) : list Z :=
   match dec_json r3 with Some (v, _) => 0 :: enc_list enc_node (sem rg (rx_lookup t) q v)
   | None => bad_request end | None => bad_request end | None => bad_request end | None => bad_request end.
 
+Definition dec_comparand : dec comparand := fun l =>
+  match l with
+  | 0 :: r => Some (Nothing, r)
+  | 1 :: r => match dec_json r with Some (v, r') => Some (Val v, r') | None => None end
+  | _ => None
+  end.
+(* [106; op; comparand; comparand] *)
+Definition op_cmp (r : list Z) : list Z :=
+  match dec_cmpop r with Some (o, r0) =>
+  match dec_comparand r0 with Some (a, r1) =>
+  match dec_comparand r1 with Some (b, _) => enc_bool (cmp o a b)
+  | None => bad_request end | None => bad_request end | None => bad_request end.
+
 (* opcodes: model side 1..99, specification side 101..199 *)
 Definition dispatch (req : list Z) : list Z :=
   match req with
   | 3 :: r => op_find r
   | 103 :: r => op_sem r
+  | 106 :: r => op_cmp r
   | 7 :: len :: r =>        (* slice selector on [0, 1, ..., len-1] *)
     match dec_opt dec_z r with Some (s, r1) =>
     match dec_opt dec_z r1 with Some (e, r2) =>
